@@ -11,6 +11,9 @@ pub(crate) trait BindScope: fmt::Debug + NotObserver {
     fn is_necessary(&self) -> bool;
     fn height(&self) -> i32;
     fn add_node(&self, node: WeakNode);
+    /// Like `height`, but `None` when the change-detector node is gone.
+    #[cfg(cormacrelf_incremental_rs_verif)]
+    fn verif_height(&self) -> Option<i32>;
 }
 
 #[derive(Clone)]
